@@ -10,12 +10,12 @@ from lv import tlc
 
 KEEP = {'submit', 'pstart', 'rbegin', 'dread', 'rend', 'load', 'w_die', 'w_term', 'sample', 'consume', 'died',
         'exec_stop', 'complete', 'capture', 'removed', 'closed', 'int', 'outcome', 'obs_cache', 'obs_marks',
-        'obs_logs', 'lemit', 'obs_ctxstore'}
+        'obs_logs', 'lemit', 'obs_ctxstore', 'pb_new', 'pb_upd', 'pb_close'}
 TOKEN = re.compile(r'msg:\d+:\w:\d+')
 
 
 def to_monitor(tid: str, cfg: dict, trace: list, *, real: bool = False, caller_pid: Optional[int] = None,
-               mark: Optional[str] = None, ctxkeys: Optional[list] = None) -> dict:
+               mark: Optional[str] = None, ctxkeys: Optional[list] = None, tnames: Optional[list] = None) -> dict:
     """Project a recorded execution onto the events the monitor consumes.  Pure renaming and
     filtering: no expected behaviour is computed here."""
     ev = []
@@ -31,7 +31,7 @@ def to_monitor(tid: str, cfg: dict, trace: list, *, real: bool = False, caller_p
                        'main': int(r.get('main', 0)),
                        'seesmark': int(mark is not None and r.get('mark') == mark),
                        'freshimport': int(r.get('impid') == pid),
-                       'ctx': r.get('ctx') or ''})
+                       'ctx': r.get('ctx') or '', 'pname': r.get('pname') or ''})
         elif k == 'obs_logs':
             toks = []
             for m in r['delivered']:
@@ -45,6 +45,8 @@ def to_monitor(tid: str, cfg: dict, trace: list, *, real: bool = False, caller_p
                 raise ValueError(f'event without an integer task id: {r}')
             ev.append({kk: vv for kk, vv in r.items() if kk not in ('pid', 's', 'at', 'msg')})
     c = dict(cfg)
+    if tnames is not None:
+        c['tnames'] = tnames
     c['real'] = bool(real)
     c['ctxkeys'] = ctxkeys if ctxkeys is not None else ['' for _ in range(cfg['n'])]
     return {'tid': tid, 'cfg': c, 'ev': ev}
